@@ -16,6 +16,27 @@ CHECKS = {
         ref="4 C13", technique="TLA+ model checking (TLC) + spec-to-code replay + trace validation"),
 }
 
+CHECKS["C03"] = dict(
+    text="TLC explores the step-by-step model of Suggestion::apply (spec/Spans.tla: in-place copy, split_off/"
+         "extend/skip, shift-left/truncate) for every text length, span, kind and replacement length within "
+         "bounds and checks it equals the declarative Apply and is a local edit; every TLC case is replayed "
+         "into the real Suggestion::apply; every lint the real rules produce on composed documents in all "
+         "front-ends is recorded (Doc/Applied events) and validated by TLC (spec/trace/Trace_Spans.tla): "
+         "span inside the text, after = Apply(before), edit local.",
+    note="Trusted: TLC, harness event encoding (code points). Bounded texts (<=8 chars in the model; <=300 "
+         "chars for applied suggestions on real documents).",
+    ref="4 C03", technique="TLA+ model checking (TLC) + spec-to-code replay + trace validation")
+CHECKS["C02"] = dict(
+    text="The lexer (lex_token precedence chain) and every condensing pass of Document::parse are transcribed "
+         "into TLA+ (spec/LexerOps.tla, CondenseOps.tla) over a 24-class character alphabet; TLC checks lexer "
+         "progress, tiling and WellFormed for every buffer up to the bound (Typing model). Every enumerated "
+         "class string is concretised, parsed by the real code and compared token by token with the model "
+         "(zero drift expected), and documents in all front-ends are validated against WellFormed by TLC "
+         "(spec/trace/Trace_Tokens.tla).",
+    note="Trusted: TLC; the harness's independent character-class table; number denotation recomputed by the "
+         "harness. Model excludes ':' '/' '@' so url/email lexers are exercised only through traces.",
+    ref="4 C02", technique="TLA+ model checking (TLC) + spec-to-code replay + trace validation")
+
 NOT_YET = {}
 
 
